@@ -439,7 +439,7 @@ Proof.
 Qed.
 
 (* ================= paths of a well-formed stack ================= *)
-Definition leaf_ext (lf : leaf) : bool := match lf with LfTarget c => ext_caps c | LfByTest => true end.
+Definition leaf_ext (lf : leaf) : bool := match lf with LfTarget c => ext_caps c | LfByTest _ => true end.
 (* the object a path starts with speaks the extended protocol *)
 Definition pext (ls : list layer) (lf : leaf) : bool := match ls with [] => leaf_ext lf | _ => true end.
 (* every TestResultDecorator / Tagger on the path decorates something that does *)
@@ -454,7 +454,7 @@ Fixpoint pwf (ls : list layer) (lf : leaf) : bool :=
 Section AdapterInd.
   Variable P : adapter -> Prop.
   Hypothesis HT : forall c, P (Target c).
-  Hypothesis HB : P ByTest.
+  Hypothesis HB : forall bad, P (ByTest bad).
   Hypothesis HE : forall a, P a -> P (E2O a).
   Hypothesis HM : forall l, (forall a, In a l -> P a) -> P (Multi l).
   Hypothesis HD : forall a, P a -> P (Deco a).
@@ -462,7 +462,7 @@ Section AdapterInd.
   Fixpoint adapter_ind' (a : adapter) : P a :=
     match a with
     | Target c => HT c
-    | ByTest => HB
+    | ByTest bad => HB bad
     | E2O a' => HE a' (adapter_ind' a')
     | Multi l =>
         HM l ((fix go (l : list adapter) : forall a, In a l -> P a :=
@@ -482,7 +482,7 @@ Lemma paths_wf a : wf_stack a = true ->
   forall p, In p (paths a) ->
     pwf (fst p) (snd p) = true /\ (ext_ok a = true -> pext (fst p) (snd p) = true).
 Proof.
-  induction a as [c| |a IH|l IH|a IH|n g a IH] using adapter_ind'; simpl; intros Hwf p Hin.
+  induction a as [c|bad|a IH|l IH|a IH|n g a IH] using adapter_ind'; simpl; intros Hwf p Hin.
   - destruct Hin as [<-|[]]. simpl. auto.
   - destruct Hin as [<-|[]]. simpl. auto.
   - apply in_map_iff in Hin as (q & <- & Hq). destruct (IH Hwf q Hq) as [H1 _]. simpl. auto.
@@ -508,7 +508,7 @@ Definition spec_of_path (p : path) : leaf * list tag_change := (snd p, ptaggers 
 
 Lemma spec_leaves_paths a : spec_leaves a = map spec_of_path (paths a).
 Proof.
-  induction a as [c| |a IH|l IH|a IH|n g a IH] using adapter_ind'; simpl; try reflexivity.
+  induction a as [c|bad|a IH|l IH|a IH|n g a IH] using adapter_ind'; simpl; try reflexivity.
   - rewrite IH, map_map. reflexivity.
   - induction l as [|x l IHl]; [reflexivity|]. simpl. rewrite map_app, map_map.
     rewrite (IH x (or_introl eq_refl)). f_equal. apply IHl. intros a Ha. apply IH. right; exact Ha.
@@ -595,16 +595,16 @@ Proof.
     repeat match goal with |- context [if ?b then _ else _] => destruct b end; reflexivity.
 Qed.
 
-Lemma piface_tcaps r : tcaps (piface r LfByTest) = true.
+Lemma piface_tcaps bad r : tcaps (piface r (LfByTest bad)) = true.
 Proof. destruct r as [|[]]; reflexivity. Qed.
 
-Lemma through_bytest ls : forall h,
-  sig (through ls LfByTest h) = sig (inject (ptaggers ls) h).
+Lemma through_bytest bad ls : forall h,
+  sig (through ls (LfByTest bad) h) = sig (inject (ptaggers ls) h).
 Proof.
   induction ls as [|l r IH]; intro h.
   - simpl. rewrite inject_nil. reflexivity.
   - simpl through. rewrite IH.
-    pose proof (piface_tcaps r) as Hc. set (ci := piface r LfByTest) in *.
+    pose proof (piface_tcaps bad r) as Hc. set (ci := piface r (LfByTest bad)) in *.
     apply flat_map_sig_inject. intro c.
     destruct l; simpl ptaggers; simpl layer_conv.
     + rewrite !sig_inject, (e2o_conv_sig ci c Hc). reflexivity.
@@ -667,8 +667,8 @@ Proof.
     try (apply (We k t' a)); try (apply (Wo k t' None)).
 Qed.
 
-Lemma bytest_path_callbacks ls h : bracketed_from Outside h = true ->
-  bt_run bt_init (through ls LfByTest h) = expected_cbs (ptaggers ls) sst_init h.
+Lemma bytest_path_callbacks bad ls h : bracketed_from Outside h = true ->
+  bt_run bt_init (through ls (LfByTest bad) h) = expected_cbs (ptaggers ls) sst_init h.
 Proof.
   intro Hb. rewrite <- bt_run_sig, through_bytest, bt_run_sig.
   apply bytest_simulation with Outside; [|exact Hb].
@@ -703,7 +703,7 @@ Lemma raises_only a c e : raises a c = Some e ->
 Proof.
   destruct c; try (destruct a; discriminate).
   - (* progress *) intro H. split; [|right; eauto].
-    induction a as [cp| |a IH|l|a IH|n g a IH]; simpl in H.
+    induction a as [cp|bad|a IH|l|a IH|n g a IH]; simpl in H.
     + destruct (c_progress cp); congruence.
     + congruence.
     + destruct (c_progress (iface a)); [apply IH; exact H|discriminate].
@@ -711,22 +711,84 @@ Proof.
     + apply IH; exact H.
     + apply IH; exact H.
   - (* done *) intro H. split; [|left; reflexivity].
-    destruct a as [cp| |a|l|a|n g a]; simpl in H; try congruence.
+    destruct a as [cp|bad|a|l|a|n g a]; simpl in H; try congruence.
     destruct (c_done cp); congruence.
 Qed.
 
+Lemma existsb_map {A B} (f : B -> bool) (g : A -> B) l : existsb f (map g l) = existsb (fun x => f (g x)) l.
+Proof. induction l as [|x l IH]; simpl; [reflexivity|]. rewrite IH. reflexivity. Qed.
+
+Lemma spec_leaves_leaves a : map fst (spec_leaves a) = map snd (paths a).
+Proof. rewrite spec_leaves_paths, map_map. reflexivity. Qed.
+
+(* what comes out of a stopTest is what the on_test of one of the TestByTestResults raises for that test *)
+Lemma aborts_only a c : aborts (paths a) c = true ->
+  exists t, c = StopTest t /\ bad_for (map fst (spec_leaves a)) t = true.
+Proof.
+  destruct c; simpl; try discriminate. intro H. exists t. split; [reflexivity|].
+  unfold bad_for. rewrite spec_leaves_leaves, existsb_map. exact H.
+Qed.
+
 Lemma raised_from_ok a h' : forall pre,
-  raised_okb (pre ++ h') (raised_from a (length pre) h') = true.
+  raised_okb (map fst (spec_leaves a)) (pre ++ h') (raised_from a (length pre) h') = true.
 Proof.
   induction h' as [|c r IH]; intro pre; [reflexivity|].
-  assert (Hrest : raised_okb (pre ++ c :: r) (raised_from a (S (length pre)) r) = true).
+  assert (Hrest : raised_okb (map fst (spec_leaves a)) (pre ++ c :: r) (raised_from a (S (length pre)) r) = true).
   { specialize (IH (pre ++ [c])). rewrite <- app_assoc, app_length in IH. simpl in IH.
     rewrite Nat.add_1_r in IH. exact IH. }
-  simpl. destruct (raises a c) as [e|] eqn:E; [|exact Hrest].
-  destruct (raises_only _ _ _ E) as [-> Hc].
-  unfold raised_okb. simpl. rewrite nth_error_app2, Nat.sub_diag by apply Nat.le_refl. simpl.
-  fold (raised_okb (pre ++ c :: r) (raised_from a (S (length pre)) r)). rewrite Hrest.
-  destruct Hc as [->|(o & w & ->)]; reflexivity.
+  simpl. destruct (raises a c) as [e|] eqn:E.
+  - destruct (raises_only _ _ _ E) as [-> Hc].
+    unfold raised_okb. simpl. rewrite nth_error_app2, Nat.sub_diag by apply Nat.le_refl. simpl.
+    fold (raised_okb (map fst (spec_leaves a)) (pre ++ c :: r) (raised_from a (S (length pre)) r)). rewrite Hrest.
+    destruct Hc as [->|(o & w & ->)]; reflexivity.
+  - destruct (aborts (paths a) c) eqn:A; [|exact Hrest].
+    destruct (aborts_only _ _ A) as (t & -> & Hb).
+    unfold raised_okb. simpl. rewrite nth_error_app2, Nat.sub_diag by apply Nat.le_refl. simpl.
+    fold (raised_okb (map fst (spec_leaves a)) (pre ++ StopTest t :: r) (raised_from a (S (length pre)) r)).
+    rewrite Hrest, Hb. reflexivity.
+Qed.
+
+(* ================= results dispatched to after a faulty on_test (excluded by wf) ================= *)
+Lemma existsb_false_In {A} (f : A -> bool) l : existsb f l = false -> forall x, In x l -> f x = false.
+Proof.
+  induction l as [|y l IH]; simpl; intros H x Hx; [destruct Hx|].
+  apply orb_false_iff in H as [H1 H2]. destruct Hx as [<-|Hx]; [exact H1|apply IH; assumption].
+Qed.
+
+Lemma abort_reaches_before (before : list path) (p : path) (r : list path) t :
+  abort_reaches (map snd (before ++ p :: r)) t = false -> existsb (fun q => leaf_bad (snd q) t) before = false.
+Proof.
+  induction before as [|q before IH]; simpl; intro H; [reflexivity|].
+  apply orb_false_iff in H as [H1 H2]. rewrite (IH H2), orb_false_r.
+  destruct (leaf_bad (snd q) t); [|reflexivity].
+  exfalso. clear IH H2. destruct before; simpl in H1; discriminate H1.
+Qed.
+
+(* no stopTest of the history is for a test that a TestByTestResult with a result after it raises for *)
+Definition clean (ps : list path) (h : list call) : Prop :=
+  forall t, In (StopTest t) h -> abort_reaches (map snd ps) t = false.
+
+Lemma reaching_clean (before : list path) (p : path) (r : list path) h : clean (before ++ p :: r) h -> reaching before h = h.
+Proof.
+  intro Hc. unfold reaching. induction h as [|c h IH]; [reflexivity|]. simpl.
+  assert (A : aborts before c = false).
+  { destruct c; try reflexivity. simpl. eapply abort_reaches_before. apply Hc. left; reflexivity. }
+  rewrite A. simpl. f_equal. apply IH. intros t Ht. apply Hc. right; exact Ht.
+Qed.
+
+Lemma run_leaves_clean rest : forall before h, clean (before ++ rest) h ->
+  run_leaves before rest h = map (leaf_run h) rest.
+Proof.
+  induction rest as [|p r IH]; intros before h Hc; [reflexivity|].
+  simpl. rewrite (reaching_clean before p r h Hc). f_equal.
+  apply IH. rewrite <- app_assoc. exact Hc.
+Qed.
+
+Lemma no_sibling_clean i : fault_reaches_sibling i = false -> clean (paths (stack i)) (hist i).
+Proof.
+  unfold fault_reaches_sibling, clean. intros H t Ht.
+  pose proof (existsb_false_In _ _ H _ Ht) as K. simpl in K.
+  rewrite spec_leaves_leaves in K. exact K.
 Qed.
 
 (* ================= a call that raises delivers nothing ================= *)
@@ -742,7 +804,7 @@ Qed.
 
 Lemma piface_paths a p : In p (paths a) -> piface (fst p) (snd p) = iface a.
 Proof.
-  destruct a as [c| |a|l|a|n g a]; simpl; intro H.
+  destruct a as [c|bad|a|l|a|n g a]; simpl; intro H.
   - destruct H as [<-|[]]. reflexivity.
   - destruct H as [<-|[]]. reflexivity.
   - apply in_map_iff in H as (q & <- & _). reflexivity.
@@ -754,7 +816,7 @@ Qed.
 Definition silent (lf : leaf) (cs : list call) : Prop :=
   match lf with
   | LfTarget cp => target_log cp cs = []
-  | LfByTest => sig cs = []
+  | LfByTest _ => sig cs = []
   end.
 
 Lemma through_done ls lf : silent lf (through ls lf [Done]).
@@ -772,7 +834,7 @@ Lemma raising_call_delivers_nothing a c e : raises a c = Some e ->
 Proof.
   intro H. destruct (raises_only _ _ _ H) as [_ [->|(o & w & ->)]].
   - intros p _. apply through_done.
-  - revert H. induction a as [cp| |a IH|l IH|a IH|n g a IH] using adapter_ind'; simpl; intros H p Hin.
+  - revert H. induction a as [cp|bad|a IH|l IH|a IH|n g a IH] using adapter_ind'; simpl; intros H p Hin.
     + destruct Hin as [<-|[]]. simpl. destruct (c_progress cp); [discriminate|reflexivity].
     + destruct Hin as [<-|[]]. reflexivity.
     + apply in_map_iff in Hin as (q & <- & Hq). simpl. rewrite app_nil_r.
@@ -796,17 +858,26 @@ Lemma path_meets_spec a h p :
   In p (paths a) -> leaf_okb h (spec_of_path p) (leaf_run h p) = true.
 Proof.
   intros He Hwf Hok Hb Hin. destruct (paths_wf a Hwf p Hin) as [Hp Hx]. specialize (Hx He).
-  destruct p as [ls [c|]]; unfold leaf_okb, leaf_run, spec_of_path; simpl in *.
+  destruct p as [ls [c|bad]]; unfold leaf_okb, leaf_run, spec_of_path; simpl in *.
   - apply (target_path_delivers c ls h Hp Hx). apply forallb_filter. exact Hok.
   - rewrite bytest_path_callbacks by exact Hb. apply forall2b_refl. exact cb_ok_refl.
 Qed.
 
+Lemma wf_parts i : wf i ->
+  ext_ok (stack i) = true /\ wf_stack (stack i) = true /\ forallb call_okb (hist i) = true
+  /\ bracketed_from Outside (hist i) = true /\ fault_reaches_sibling i = false.
+Proof.
+  unfold wf, wfb. intro H. repeat (apply andb_true_iff in H as [H ?]).
+  repeat split; try assumption. apply negb_true_iff. assumption.
+Qed.
+
 Theorem model_meets_spec i : wf i -> spec_okb i (model i) = true.
 Proof.
-  unfold wf, wfb. intro H. split_andb H.
+  intro H. destruct (wf_parts i H) as (He & Hw & Hc & Hb & NF).
   unfold spec_okb, model, run. simpl. apply andb_true_iff. split.
   - exact (raised_from_ok (stack i) (hist i) []).
-  - rewrite spec_leaves_paths. apply forall2b_map. intros p Hp.
+  - rewrite (run_leaves_clean _ [] _ (no_sibling_clean i NF)).
+    rewrite spec_leaves_paths. apply forall2b_map. intros p Hp.
     apply (path_meets_spec (stack i)); assumption.
 Qed.
 
@@ -881,12 +952,14 @@ Proof.
   repeat split; try assumption; apply subsetb_spec; assumption.
 Qed.
 
-Lemma raised_okb_sound h r : raised_okb h r = true -> RaisedSpec h r.
+Lemma raised_okb_sound ls h r : raised_okb ls h r = true -> RaisedSpec ls h r.
 Proof.
   unfold raised_okb, RaisedSpec. rewrite forallb_forall. intros H j e Hin.
-  specialize (H _ Hin). simpl in H. apply andb_true_iff in H as [H1 H2].
-  apply exn_eqb_spec in H1. split; [exact H1|].
-  destruct (nth_error h j) as [[ | | | |o w| | | | | | | ]|]; try discriminate; eauto.
+  specialize (H _ Hin). simpl in H.
+  destruct (nth_error h j) as [[ | | | |o w| |t| | | | | ]|]; try discriminate.
+  - left. apply exn_eqb_spec in H. split; [exact H|]. right. eauto.
+  - right. apply andb_true_iff in H as [H1 H2]. apply exn_eqb_spec in H1. split; [exact H1|]. eauto.
+  - left. apply exn_eqb_spec in H. split; [exact H|]. left. reflexivity.
 Qed.
 
 Lemma leaf_okb_sound h lt lo : leaf_okb h lt lo = true -> LeafSpec h lt lo.
@@ -936,7 +1009,7 @@ Proof.
   unfold LeafSpec in HL. simpl in HL. destruct lo as [l|cbs]; [|destruct HL]. eauto.
 Qed.
 
-Lemma spec_bytest i o k tg : Spec i o -> nth_error (spec_leaves (stack i)) k = Some (LfByTest, tg) ->
+Lemma spec_bytest i o k bad tg : Spec i o -> nth_error (spec_leaves (stack i)) k = Some (LfByTest bad, tg) ->
   exists cbs, nth_error (o_leaves o) k = Some (OCbs cbs)
               /\ Forall2 CbSpec (expected_cbs tg sst_init (hist i)) cbs.
 Proof.
@@ -986,22 +1059,22 @@ Qed.
 Lemma CbSpec_tests l m : Forall2 CbSpec l m -> map cb_test m = map cb_test l.
 Proof. induction 1 as [|x y l m [H _] _ IH]; simpl; congruence. Qed.
 
-Lemma bytest_clause i o k tg : wf i -> Spec i o ->
-  nth_error (spec_leaves (stack i)) k = Some (LfByTest, tg) ->
+Lemma bytest_clause i o k bad tg : wf i -> Spec i o ->
+  nth_error (spec_leaves (stack i)) k = Some (LfByTest bad, tg) ->
   exists cbs, nth_error (o_leaves o) k = Some (OCbs cbs)
               /\ Forall2 CbSpec (expected_cbs tg sst_init (hist i)) cbs
               /\ map cb_test cbs = stop_tests (hist i)
               /\ stop_tests (hist i) = start_tests (hist i).
 Proof.
-  intros Hwf HS Hk. destruct (spec_bytest i o k tg HS Hk) as (cbs & Hc & HF).
+  intros Hwf HS Hk. destruct (spec_bytest i o k bad tg HS Hk) as (cbs & Hc & HF).
   exists cbs. repeat split; try assumption.
   - rewrite (CbSpec_tests _ _ HF). apply expected_cbs_tests.
-  - unfold wf, wfb in Hwf. split_andb Hwf. symmetry. exact (bracketed_tests _ Outside Hwf0).
+  - destruct (wf_parts i Hwf) as (_ & _ & _ & Hb & _). symmetry. exact (bracketed_tests _ Outside Hb).
 Qed.
 
 (* the observation has exactly one entry per innermost result, of the right kind *)
 Lemma spec_leaves_shape i o : Spec i o ->
-  Forall2 (fun lt lo => match fst lt, lo with LfTarget _, OLog _ | LfByTest, OCbs _ => True | _, _ => False end)
+  Forall2 (fun lt lo => match fst lt, lo with LfTarget _, OLog _ | LfByTest _, OCbs _ => True | _, _ => False end)
           (spec_leaves (stack i)) (o_leaves o).
 Proof.
   intros [_ H]. eapply Forall2_impl; [|exact H]. intros [lf tg] lo. unfold LeafSpec. simpl.
@@ -1014,38 +1087,45 @@ Proof. unfold skip_reason. intros ->. reflexivity. Qed.
 
 (* ================= the clauses, for the model ================= *)
 Lemma model_spec i : wf i -> Spec i (model i).
-Proof. intro H. apply spec_okb_sound. apply model_meets_spec. exact H. Qed.
+Proof. intros H. apply spec_okb_sound. apply model_meets_spec; assumption. Qed.
 
 Lemma model_once_in_order i : wf i -> forall k c tg,
   nth_error (spec_leaves (stack i)) k = Some (LfTarget c, tg) ->
   exists l, nth_error (o_leaves (model i)) k = Some (OLog l)
             /\ map shape (bracket l) = map shape (bracket (hist i)).
-Proof. intros H k c tg. apply once_in_order. apply model_spec. exact H. Qed.
+Proof. intros H k c tg. apply once_in_order. apply model_spec; assumption. Qed.
 
 Lemma model_degradation i : wf i -> forall k c tg,
   nth_error (spec_leaves (stack i)) k = Some (LfTarget c, tg) ->
   exists l, nth_error (o_leaves (model i)) k = Some (OLog l)
             /\ Forall2 (Delivered c) (bracket (hist i)) (bracket l).
-Proof. intros H k c tg. apply spec_target. apply model_spec. exact H. Qed.
+Proof. intros H k c tg. apply spec_target. apply model_spec; assumption. Qed.
 
 Lemma model_no_pass_from_fail i : wf i -> forall k c tg,
   nth_error (spec_leaves (stack i)) k = Some (LfTarget c, tg) ->
   exists l, nth_error (o_leaves (model i)) k = Some (OLog l)
             /\ Forall2 (fun hc lc => is_fail hc = true -> is_fail lc = true) (bracket (hist i)) (bracket l).
-Proof. intros H k c tg. apply no_pass_from_fail. apply model_spec. exact H. Qed.
+Proof. intros H k c tg. apply no_pass_from_fail. apply model_spec; assumption. Qed.
 
-Lemma model_bytest i : wf i -> forall k tg,
-  nth_error (spec_leaves (stack i)) k = Some (LfByTest, tg) ->
+(* whatever the on_test of this TestByTestResult raises for (bad) *)
+Lemma model_bytest i : wf i -> forall k bad tg,
+  nth_error (spec_leaves (stack i)) k = Some (LfByTest bad, tg) ->
   exists cbs, nth_error (o_leaves (model i)) k = Some (OCbs cbs)
               /\ Forall2 CbSpec (expected_cbs tg sst_init (hist i)) cbs
               /\ map cb_test cbs = stop_tests (hist i)
               /\ stop_tests (hist i) = start_tests (hist i).
-Proof. intros H k tg. apply bytest_clause; [exact H|]. apply model_spec. exact H. Qed.
+Proof. intros H k bad tg. apply bytest_clause; [exact H|]. apply model_spec; assumption. Qed.
 
 Lemma model_leaves i : wf i ->
-  Forall2 (fun lt lo => match fst lt, lo with LfTarget _, OLog _ | LfByTest, OCbs _ => True | _, _ => False end)
+  Forall2 (fun lt lo => match fst lt, lo with LfTarget _, OLog _ | LfByTest _, OCbs _ => True | _, _ => False end)
           (spec_leaves (stack i)) (o_leaves (model i)).
-Proof. intro H. apply spec_leaves_shape. apply model_spec. exact H. Qed.
+Proof. intros H. apply spec_leaves_shape. apply model_spec; assumption. Qed.
+
+(* what comes out of the calls of the history: AttributeError from done() / progress() where they do not
+   exist, and from the stopTest of a test what the on_test of a TestByTestResult raises for it *)
+Lemma model_raised i : wf i ->
+  RaisedSpec (map fst (spec_leaves (stack i))) (hist i) (o_raised (model i)).
+Proof. intros H. exact (proj1 (model_spec i H)). Qed.
 
 (* the substring lemma, under its public name *)
 Lemma details_text d sp : NoDup (map fst d) -> ContainsAll d (details_to_str d sp).
